@@ -238,8 +238,13 @@ def shard(idx, n, tier):
                 out["params"][k] = {"t": "pref", "v": [str(Decimal(int(v["v"])).scaleb(3)), -3]}
         return out
 
+    # sources whose parameters are all literals, numeric-looking ones included (the renamed pulse fields above all)
+    numlit = st.sampled_from(["1e-9", "5", "0.5", "1E3", "tdel", "w/5", "2*tr", "-3.0", ".5", "1n"]).map(lambda t: {"t": "lit", "v": t})
+    lit_sources = st.sampled_from(["PulseVoltageSource", "PulseVoltageSource", "SineVoltageSource", "DcVoltageSource"]).flatmap(
+        lambda nm: st.fixed_dictionaries({k: numlit for k, p in getattr(c13.H()["hp"], nm).paramtype.__params__.items() if "Prefixed" in str(p.dtype)}).map(
+            lambda ps: {"kind": "prim", "prim": nm, "params": ps}))
     twins = st.tuples(inst_cases, st.sampled_from([-2, -1, 1, 2])).map(lambda t: [t[0], respell(t[0], t[1])])
-    inst_lists = st.one_of(st.lists(inst_cases, min_size=0, max_size=3), twins,
+    inst_lists = st.one_of(st.lists(inst_cases, min_size=0, max_size=3), twins, st.lists(lit_sources, min_size=1, max_size=2),
                            st.tuples(twins, inst_cases).map(lambda t: t[0] + [t[1]]))
     pcase = st.fixed_dictionaries({"insts": inst_lists,
                                    "ext": st.lists(ext_shape, min_size=0, max_size=2),
